@@ -39,6 +39,10 @@ def items(tier):
         for which in ("max", "min"):
             for agg in ("PNorm2", "KS", "SoftMinMax"):
                 out.append(dict(kind="scaling", id="scaling-%s-%s-n%d" % (agg, which, n), n=n, which=which, agg=agg))
+    # scaling AND an active set that cuts on the side of the extreme: the scale refers to the extreme of the ACTIVE entries
+    for which in ("max", "min"):
+        for agg in ("PNorm2", "KS"):
+            out.append(dict(kind="scaling", id="scaling-%s-%s-n3-activeset" % (agg, which), n=3, which=which, agg=agg, active=True))
     for n in b["bounds_n"]:
         for sgn in (+1, -1):
             out.append(dict(kind="bound-softminmax", id="bound-softminmax-n%d-%s" % (n, "pos" if sgn > 0 else "neg"), n=n, sgn=sgn))
@@ -148,18 +152,30 @@ def sc_scaling(V, P, cfg):
     import pymoto as pym
     n, which, agg = cfg["n"], cfg["which"], cfg["agg"]
     d = V.real("d", lo=0, hi="0.9375")
-    xs = [V.reals("x%d" % k, n, positive=True) for k in range(3)]
+    nresp = 1 if cfg.get("active") else 3        # (with an active set every response forks over the 6 orderings)
+    xs = [V.reals("x%d" % k, n, positive=True) for k in range(nresp)]
     sig = pym.Signal("x")
     sc = pym.AggScaling(which, damping=d)
-    m = _mk_agg(agg, sig, V, scaling=sc)
+    akw = {}
+    if cfg.get("active"):
+        # n = 3, one entry removed on the side of the extreme (int(3 * 0.5) = 1): the middle value is the extreme kept
+        mk_as = (lambda: pym.AggActiveSet(upper_amt=V.const("0.5"))) if which == "max" else (lambda: pym.AggActiveSet(lower_amt=V.const("0.5")))
+        if V.symbolic:
+            for xk in xs:
+                V.assume(xk[0] != xk[1])
+                V.assume(xk[0] != xk[2])
+                V.assume(xk[1] != xk[2])
+    else:
+        mk_as = None
+    m = _mk_agg(agg, sig, V, scaling=sc, **(dict(active_set=mk_as()) if mk_as else {}))
     sig0 = pym.Signal("x")
-    m0 = _mk_agg(agg, sig0, V)                      # unscaled twin gives the approximation itself
+    m0 = _mk_agg(agg, sig0, V, **(dict(active_set=mk_as()) if mk_as else {}))                      # unscaled twin gives the approximation itself
     sigu = pym.Signal("x")
-    mu = _mk_agg(agg, sigu, V, scaling=pym.AggScaling(which, damping=0.0))   # undamped
+    mu = _mk_agg(agg, sigu, V, scaling=pym.AggScaling(which, damping=0.0), **(dict(active_set=mk_as()) if mk_as else {}))   # undamped
     obs = {}
     s_prev = None
     ext = _max if which == "max" else _min
-    for k in range(3):
+    for k in range(nresp):
         sig.state = xs[k]
         sig0.state = xs[k]
         sigu.state = xs[k]
@@ -168,6 +184,8 @@ def sc_scaling(V, P, cfg):
         mu.response()
         y, approx, yu = m.sig_out[0].state, m0.sig_out[0].state, mu.sig_out[0].state
         true = ext(list(xs[k]))
+        if cfg.get("active"):
+            true = xs[k][0] + xs[k][1] + xs[k][2] - _max(list(xs[k])) - _min(list(xs[k]))      # the middle value
         obs["y%d" % k], obs["approx%d" % k], obs["yu%d" % k] = y, approx, yu
         if P is not None:
             s_exp = true / approx if s_prev is None else d * s_prev + (1 - d) * true / approx
@@ -328,9 +346,9 @@ def replay(cfg, label, env, case):
         d = env.get("d", 0.0)
         ext = max if which == "max" else min
         s_prev, bad, det = None, False, {}
-        for k in range(3):
+        for k in range(1 if cfg.get("active") else 3):
             xk = [env.get("x%d_%d" % (k, i), 1.0) for i in range(n)]
-            true, approx = ext(xk), float(obs["approx%d" % k])
+            true, approx = (sorted(xk)[1] if cfg.get("active") else ext(xk)), float(obs["approx%d" % k])
             s = true / approx if s_prev is None else d * s_prev + (1 - d) * true / approx
             if abs(float(obs["y%d" % k]) - s * approx) > 1e-9 * max(1, abs(s * approx)):
                 bad = True
